@@ -750,6 +750,18 @@ def compare(op, a, b):
             return z3.BoolVal(res)
         if isinstance(op, (ast.IsNot, ast.NotEq)):
             return z3.BoolVal(not res)
+    if (isinstance(a, PyConst) and is_z3(b) and b.sort() == CPLX) or (isinstance(b, PyConst) and is_z3(a) and a.sort() == CPLX):
+        # a concrete complex constant against an abstract complex value: the constant as a named constant of the abstract sort
+        def cz(v):
+            if not isinstance(v, PyConst):
+                return v
+            if v.value == 1:
+                return z3.Const('cplx_one', CPLX)
+            return z3.Const('cplx_const_%s' % repr(complex(v.value)).strip('()').replace('+', 'p').replace('-', 'm').replace('.', '_'), CPLX)
+        if isinstance(op, ast.Eq):
+            return cz(a) == cz(b)
+        if isinstance(op, ast.NotEq):
+            return cz(a) != cz(b)
     if isinstance(a, PyConst) or isinstance(b, PyConst):
         # comparison with a concrete Python constant (e.g. the complex unit 1j): decided concretely
         av = a.value if isinstance(a, PyConst) else (z3.simplify(to_z3(a)).as_long() if z3.is_int_value(z3.simplify(to_z3(a))) else None)
